@@ -31,6 +31,8 @@ def check(ctx, tier):
     branches(ctx, tk, f)
     early_return(ctx, tk, f)
     sample_cast(ctx, tk, f)
+    from .. import hazards as _hz0
+    _hz0.accumulation_pairs_with_difference(ctx, tk, "C12.h")
     values_writers(ctx, tk)
     fast_dtype(ctx, tk)
     n0 = len(ctx.obligations)
